@@ -151,7 +151,7 @@ func rfcEval(fn string, col, val *Value) (res bool, defined bool) {
 }
 
 func genCond(r *Run, table map[string]Row, uuids []string) CondJ {
-	cols := []string{"name", "n", "tag", "x", "m", "s", "_uuid"}
+	cols := []string{"name", "n", "tag", "x", "t2", "m", "s", "_uuid"}
 	col := cols[r.Rng.Intn(len(cols))]
 	fn := condFns[r.Rng.Intn(len(condFns))]
 	if r.Rng.Intn(2) == 0 {
